@@ -270,6 +270,41 @@ class Violation(Exception):
     pass
 
 
+def thread_probe(jobs, seconds=1.5, nthreads=4, seed=1):
+    """jobs: [(label, fn)] - every fn() is first evaluated sequentially, then `nthreads` threads evaluate randomly chosen jobs
+    for `seconds` under a tiny switch interval; returns [(label, sequential result, concurrent result)] for the first few
+    jobs whose concurrent result differs (C17: concurrent requests yield the sequential results)."""
+    import random
+    import sys
+    import threading
+    import time
+    want = [fn() for _, fn in jobs]
+    bad = []
+    stop = time.time() + seconds
+    old = sys.getswitchinterval()
+    sys.setswitchinterval(1e-6)
+
+    def work(k):
+        rng = random.Random(seed * 100 + k)
+        while time.time() < stop and len(bad) < 3:
+            j = rng.randrange(len(jobs))
+            try:
+                got = jobs[j][1]()
+            except Exception as e:  # noqa
+                got = "exc:" + type(e).__name__
+            if got != want[j]:
+                bad.append((jobs[j][0], want[j], got))
+    try:
+        ts = [threading.Thread(target=work, args=(k,)) for k in range(nthreads)]
+        for th in ts:
+            th.start()
+        for th in ts:
+            th.join()
+    finally:
+        sys.setswitchinterval(old)
+    return bad[:3]
+
+
 class WorkerError(RuntimeError):
     """a pool worker raised; carries the formatted traceback (always picklable, unlike e.g. abnf's ParseError)"""
 
